@@ -43,6 +43,9 @@ structure Obs where
   deriving Repr
 
 def Obs.ran (o : Obs) : Bool := o.runs > 0
+/-- the context the call passes is already dead when the call starts: cancelled (`cx=2`) or past its deadline (`cx=3`);
+the cache lookup inside a flight it leads fails. -/
+def Obs.deadCtx (o : Obs) : Bool := o.cx = 2 || o.cx = 3
 /-- ResourceManager: this call's `create` ran and succeeded (scripted: no error, no panic). -/
 def Obs.created (o : Obs) : Bool := o.runs > 0 && (!o.serr || o.ek = 5) && !o.spanic
 /-- the loader failed with an error that is handed to the overlapping callers and not cached. -/
@@ -150,8 +153,8 @@ def lookupErrViolation (h : List Obs) (r : Obs) : Option String :=
   if !r.lkerr then none
   else if r.ran then some s!"rm-error: the loader of call {r.id} (key {r.key}) ran although the call returned its flight's lookup error"
   else if r.val.isSome || r.err.isSome then some s!"rm: call {r.id} returned a lookup error and something else"
-  else if r.cx = 2 then none
-  else if h.any (fun l => l.id ≠ r.id && l.key = r.key && l.cx = 2 && l.lkerr && !l.ran && callsOverlap l r) then none
+  else if r.deadCtx then none
+  else if h.any (fun l => l.id ≠ r.id && l.key = r.key && l.deadCtx && l.lkerr && !l.ran && callsOverlap l r) then none
   else some (s!"rm-error: call {r.id} (key {r.key}) got a lookup (context) error although neither its own context was cancelled " ++
              "nor that of an overlapping flight leader it could have joined")
 
@@ -201,9 +204,13 @@ def rmKeyViolations (h : List Obs) : List (Nat × String) :=
 
 /-- ResourceManager: a call may panic with its own `create`'s panic, or as a joiner of a flight whose `create`
 panicked (`val.(io.Closer)` on the nil result; what the code does, see `rm_panic_cleanup`). -/
-def rmPanicViolation (h : List Obs) (r : Obs) : Option String :=
+def rmPanicViolation (asrtUser : Bool) (h : List Obs) (r : Obs) : Option String :=
   if !r.panicked then none
   else if r.ran && r.spanic then none
+  -- the loader returned (nil, nil) (`RM.nilInst`): a user that asserts the type panics — the leader, its joiners and every
+  -- later caller of the key, which now holds the nil instance
+  else if asrtUser && r.ran && r.nilv then none
+  else if asrtUser && !r.ran && h.any (fun l => l.key = r.key && l.ran && l.nilv && !l.serr && l.id ≠ r.id && l.inv < r.ret) then none
   else if !r.ran && h.any (fun l => l.key = r.key && l.ran && l.spanic && l.id ≠ r.id && callsOverlap l r) then none
   else some s!"panic: call {r.id} on key {r.key} panicked although neither its own create nor the create of a flight it could join did"
 
@@ -214,6 +221,6 @@ def rmViolations (nilJoin : Bool) (inj : List (Nat × Nat)) (h : List Obs) : Lis
   ++ h.filterMap (fun r => if r.panicked || r.stuck then none else (rmCallViolation nilJoin inj h r).map (r.line, ·))
   ++ h.filterMap (fun r => if r.runs > 1 then some (r.line, s!"rm: create of call {r.id} executed {r.runs} times") else none)
   ++ h.filterMap (fun r => (stuckViolation r).map (r.line, ·))
-  ++ h.filterMap (fun r => (rmPanicViolation h r).map (r.line, ·))
+  ++ h.filterMap (fun r => (rmPanicViolation (!nilJoin) h r).map (r.line, ·))
 
 end GoZero.C07.Spec
